@@ -302,6 +302,15 @@ func (s *Spec) Interpret(inj *Injector) *Ref {
 		}
 		r.Suppliers[t] = sp
 	}
+	// a provider reached twice (listed twice, or through two sets) supplies
+	// its types twice: the generator refuses that like any other duplicate
+	seenProv := map[int]bool{}
+	for _, pid := range provs {
+		if seenProv[pid] {
+			r.Problems = append(r.Problems, fmt.Sprintf("listed-twice:%d", pid))
+		}
+		seenProv[pid] = true
+	}
 	var structs []*Prov
 	for _, pid := range provs {
 		p := s.Provs[pid]
